@@ -95,7 +95,7 @@ async fn run_case(case: Vec<String>) -> String {
                 };
                 let text = format!(
                     "{line}\r\nVia: SIP/2.0/UDP {sb}{bp}\r\nFrom: <sip:peer@example.org>{ft}\r\nTo: <sip:me@example.org>;tag=tt\r\nCall-ID: {cid}\r\nCSeq: {cs} {cm}\r\nMax-Forwards: 70\r\nContent-Length: 0\r\n\r\n",
-                    line = line, sb = p[8], bp = branch_param, ft = ft, cid = p[6], cs = p[4], cm = p[3]
+                    line = line, sb = p[8].replace('~', ":"), bp = branch_param, ft = ft, cid = p[6], cs = p[4], cm = p[3]
                 );
                 let nheld = held.lock().len();
                 clog.lock().clear();
